@@ -168,12 +168,13 @@ def custom_infos():
 # ---------------------------------------------------------------- one call
 class Call:
     __slots__ = ("text", "default", "dayfirst", "yearfirst", "fuzzy", "fwt", "ignoretz", "tz", "info", "info_custom",
-                 "via", "tag")
+                 "via", "tag", "arg_factory")
     def __init__(self, text, default=datetime.datetime(2003, 9, 25), dayfirst=None, yearfirst=None, fuzzy=False,
                  fwt=False, ignoretz=False, tz=None, info=None, info_custom=False, via="str", tag=""):
         self.text, self.default, self.dayfirst, self.yearfirst = text, default, dayfirst, yearfirst
         self.fuzzy, self.fwt, self.ignoretz, self.tz = fuzzy, fwt, ignoretz, tz or TzSpec()
         self.info, self.info_custom, self.via, self.tag = info, info_custom, via, tag
+        self.arg_factory = None          # optional: builds the text argument (an overlapping stream, see c14.oracle_overlap)
 
     def kwargs(self):
         kw = {"default": self.default}
@@ -246,6 +247,9 @@ def call_from_case(c):
             for _, cl in custom_infos():
                 if cl.__name__ == nm:
                     info, custom = cl(dayfirst=bool(fl[0]), yearfirst=bool(fl[1])), True
+    if c.get("patched_clock_year") is not None:
+        fl = c.get("info_flags") or [False, False]
+        info, custom = clock_parserinfo(int(c["patched_clock_year"]), bool(fl[0]), bool(fl[1])), False
     d = datetime.datetime.fromisoformat(c["default"]) if c.get("default") else datetime.datetime(2003, 9, 25)
     return Call(c["text"], default=d, dayfirst=c.get("dayfirst"), yearfirst=c.get("yearfirst"), fuzzy=bool(c.get("fuzzy")),
                 fwt=bool(c.get("fuzzy_with_tokens")), ignoretz=bool(c.get("ignoretz")), tz=tzspec_from_wire(c.get("tzinfos")),
@@ -268,6 +272,9 @@ def model_pivot(info=None):
     process that lives through New Year), and the century is always computed here.  A parserinfo whose `_year` is outside the
     legitimate set, or whose `_century` is not `_year // 100 * 100`, makes the model (clock year) disagree with the
     implementation on two-digit years: a correspondence mismatch, and `pivot_violations` reports it directly."""
+    forced = getattr(info, "_verif_clock_year", None) if info is not None else None
+    if forced is not None:          # a parserinfo the harness built under a patched time.localtime (clock_parserinfo): that clock's year
+        return forced, forced // 100 * 100
     now = time.time()
     legit = sorted({time.gmtime(t).tm_year for t in (_T_IMPORT - 86400, _T_IMPORT, now, now + 86400)})
     y = time.gmtime(now).tm_year
@@ -291,6 +298,26 @@ def pivot_violations(infos):
     return out
 
 
+PIVOT_CLOCK_YEARS = [1950, 1985, 1999, 2049, 2050, 2075, 2099]
+
+
+def clock_parserinfo(year, dayfirst=False, yearfirst=False):
+    """parserinfo() built while `time.localtime()` says it is `year` (the two-digit-year rule depends on the clock year: a pivot
+    that is right in 2026 can be wrong in 1985 or 2050); the object remembers the clock year it was built under"""
+    from dateutil import parser as P
+    real = time.localtime
+    def fake(*a):
+        t = real(*a)
+        return time.struct_time((year,) + tuple(t)[1:]) if not a else t
+    time.localtime = fake
+    try:
+        info = P.parserinfo(dayfirst=dayfirst, yearfirst=yearfirst)
+    finally:
+        time.localtime = real
+    info._verif_clock_year = year
+    return info
+
+
 def pivot_oracle(ctx):
     """the two-digit-year rule evaluated on the implementation against the PROCESS CLOCK (not against parserinfo._year): every
     `MM/DD/YY` must resolve to the unique year congruent to YY within -50..+49 of the clock year, for the shared DEFAULTPARSER
@@ -300,7 +327,9 @@ def pivot_oracle(ctx):
     from dateutil import parser as P
     fresh = P.parserinfo()
     shown = 0
-    for label, info in (("DEFAULTPARSER.info", None), ("parserinfo()", fresh)):
+    objs = [("DEFAULTPARSER.info", None), ("parserinfo()", fresh)]
+    objs += [("parserinfo() built with the clock at %d" % cy, clock_parserinfo(cy)) for cy in PIVOT_CLOCK_YEARS]
+    for label, info in objs:
         obj = info if info is not None else P._parser.DEFAULTPARSER.info
         y, _c = model_pivot(obj)
         bad = pivot_violations([(label, obj)])
@@ -313,7 +342,8 @@ def pivot_oracle(ctx):
             if not (ans.startswith("ok ") and got.year == want):
                 if shown < 6:
                     case = c.describe()
-                    case.update({"object": label, "clock_year": y, "expected_year": want})
+                    case.update({"object": label, "clock_year": y, "expected_year": want,
+                                 "patched_clock_year": getattr(obj, "_verif_clock_year", None)})
                     ctx.violation("two-digit year must resolve to the unique year within -50..+49 of the current year (%d)" % y,
                                   case, {"impl": ans, "pivot_facts": [f for _, f in bad]})
                 shown += 1
@@ -352,6 +382,8 @@ def exc_kind(e):
 
 
 def text_arg(call):
+    if getattr(call, "arg_factory", None) is not None:
+        return call.arg_factory()
     if call.via == "bytes":
         return call.text.encode("utf-8")
     if call.via == "bytearray":
